@@ -32,6 +32,8 @@ def apply_edit(root, m):
     with open(path, newline="") as f:
         s = f.read()
     old, new = m["old"], m["new"]
+    if "\r\n" in s:      # CRLF source file: patterns are written with LF
+        old, new = old.replace("\r\n", "\n").replace("\n", "\r\n"), new.replace("\r\n", "\n").replace("\n", "\r\n")
     n = s.count(old)
     occ = m.get("occurrence")
     if n == 0:
